@@ -42,7 +42,22 @@ NAN = float("nan")
 # exact helpers
 
 def fr(seq):
-    return [F(float(v)) for v in seq]
+    return [v if isinstance(v, F) else F(float(v)) for v in seq]
+
+
+def exact_anomaly(data, time_cycle):
+    """Phase-mean anomalies (value minus the mean over all samples of the
+    same phase t mod time_cycle) in rational arithmetic; list of rows."""
+    T, N = len(data), len(data[0])
+    out = [[None] * N for _ in range(T)]
+    for ph in range(time_cycle):
+        idx = list(range(ph, T, time_cycle))
+        for i in range(N):
+            col = fr([data[t][i] for t in idx])
+            m = sum(col) / len(col)
+            for t, v in zip(idx, col):
+                out[t][i] = v - m
+    return out
 
 
 def is_const(seq):
